@@ -65,11 +65,11 @@ def render(case):
 
 def gen_case(seed, tier, index=0):
     rr = random.Random(seed)
-    nprod = rr.choice([1, 1, 2])
+    nprod = rr.choice([1, 1, 2, 2, 3])
     comps = []
     plan = {}
     for i in range(nprod):
-        name = 'PQ'[i]
+        name = 'PQR'[i]
         repeating = rr.random() < 0.3
         c = {'name': name}
         if repeating:
@@ -90,6 +90,13 @@ def gen_case(seed, tier, index=0):
     retries = rr.choice([None, 0, 1, 3])
     obs = {'name': 'O', 'refs': [c['name'] for c in comps], 'repeat': {'interval': interval, 'retries': retries},
            'variables': {}}
+    if rr.random() < 0.35:
+        # one producer consumed through several data references (files of its directory): the observer's producer
+        # list then names it more than once
+        k = rr.randrange(len(comps))
+        many = ['%s/%s' % (comps[k]['name'], f) for f in rr.sample(['data.txt', 'a.txt', 'b.txt'], rr.choice([2, 3]))]
+        obs['refs'] = obs['refs'][:k] + many + obs['refs'][k + 1:]
+        rr.shuffle(obs['refs'])
     if rr.random() < 0.25:
         obs['variables']['check-producer-output'] = 'false'
     if rr.random() < 0.2:
@@ -111,7 +118,7 @@ def shrink_candidates(case):
             c = copy.deepcopy(case)
             name = c['comps'][i]['name']
             del c['comps'][i]
-            c['comps'][-1]['refs'] = [r for r in c['comps'][-1]['refs'] if r != name]
+            c['comps'][-1]['refs'] = [r for r in c['comps'][-1]['refs'] if r.split('/')[0] != name]
             c['plan'].pop(name, None)
             yield c
     # simpler knobs
@@ -158,7 +165,7 @@ def run_case(case, schedule, opts):
     result = {'violations': []}
     obs = case['comps'][-1]
     oref = 'stage0.O'
-    prefs = ['stage0.%s' % r for r in obs['refs']]
+    prefs = sorted(set('stage0.%s' % r.split('/')[0] for r in obs['refs']))
 
     launch_info = []
 
